@@ -110,7 +110,44 @@ def _master_subs(tier):
                 subs.append(('master-second_outage-%s-gap%d-%s' % (
                     back, gap, ''.join(str(len(r)) + (str(r[0]) if r else '')
                                        for r in recs)), spec))
+    # start-up (fail-over) with a non-empty application blacklist: a
+    # blacklisted instance is never placed and is removed if it was
+    for recs in ([[0], []], [[], []], [[0], [1]]):
+        for bl in (['proid.web'], ['proid.w*'], ['proid.other']):
+            spec = {'level': 'master_blacklist', 'nservers': 2,
+                    'regime_dems': [3, 3, 3, 3], 'apps_blacklist': bl,
+                    'servers': [{'memory': 8}, {'memory': 8}],
+                    'apps': [{'recorded': r, 'memory': 3} for r in recs]}
+            subs.append(('master-startup_blacklist-%s-%s' % (
+                ''.join(str(len(r)) for r in recs),
+                bl[0].replace('*', 'X')), spec))
     return subs
+
+
+def _master_blacklist(S, spec):
+    import fnmatch
+    import g2
+    W = g2.base_store(S, spec)
+    m = g2.new_master(W)
+    g2.start(W, m)
+    for k in range(2):
+        for name, app in m.cell.apps.items():
+            black = any(fnmatch.fnmatch(name.split('#')[0], pat)
+                        for pat in spec['apps_blacklist'])
+            if black:
+                S.reach('blacklisted_instance_at_startup')
+                S.check('C08:blacklisted_instance_is_placed:startup%d' % k,
+                        app.server is None, {'app': name,
+                                             'server': app.server})
+        stored = g2.stored_placement(W.backend)
+        for (srv, name) in stored:
+            black = any(fnmatch.fnmatch(name.split('#')[0], pat)
+                        for pat in spec['apps_blacklist'])
+            S.check('C08:blacklisted_instance_is_published:startup%d' % k,
+                    not black, {'app': name, 'server': srv})
+        g2.cycle(W, m)
+    S.reach('scheduled')
+    S.reach('master_level')
 
 
 def _master_harness(S, spec):
@@ -222,6 +259,8 @@ def _phases(S, spec):
 def harness(S, spec):
     if spec.get('level') == 'master':
         return _master_harness(S, spec)
+    if spec.get('level') == 'master_blacklist':
+        return _master_blacklist(S, spec)
     if 'phases' in spec:
         return _phases(S, spec)
     W = g1.build(S, spec)
